@@ -46,27 +46,29 @@ func resolveDeadline(p *Prog) *dlRoles {
 		miss("exported API of deadline.Deadline (New, Set, Done, Err, Deadline) incomplete")
 		return r
 	}
-	for i := 0; i < st.NumFields(); i++ {
-		f := st.Field(i)
-		switch t := f.Type().(type) {
+	// fields regrouped into an unexported inner struct (embedded: promoted names; named field: dotted names) keep
+	// their roles
+	flattenFields = true
+	for _, f := range flatStructFields(st, "", 0) {
+		switch t := f.Type.(type) {
 		case *types.Named:
 			switch {
 			case isMutexType(t):
-				r.mu = f.Name()
+				r.mu = f.Name
 			case t.Obj().Pkg() != nil && t.Obj().Pkg().Path() == "time" && t.Obj().Name() == "Time":
-				r.deadline = f.Name()
+				r.deadline = f.Name
 			default:
 				if _, ok := t.Underlying().(*types.Interface); ok {
-					r.timer = f.Name()
+					r.timer = f.Name
 				} else if b, ok := t.Underlying().(*types.Basic); ok && b.Info()&types.IsInteger != 0 {
-					r.state = f.Name()
+					r.state = f.Name
 				}
 			}
 		case *types.Chan:
-			r.done = f.Name()
+			r.done = f.Name
 		case *types.Basic:
 			if t.Info()&types.IsInteger != 0 {
-				r.pending = f.Name()
+				r.pending = f.Name
 			}
 		}
 	}
@@ -198,6 +200,16 @@ func (r *dlRoles) isCloseDone(in ssa.Instruction) bool {
 	return len(r.doneLoads(a)) > 0
 }
 
+// isCloseDoneOnPath: close(v) where v, on this path, is the value loaded from the done field (kept in a local that
+// is nil on the paths that do not signal).
+func (r *dlRoles) isCloseDoneOnPath(in ssa.Instruction, pt *upath, idx int) bool {
+	if !isCall(in, "builtin.close") {
+		return false
+	}
+	a := in.(ssa.CallInstruction).Common().Args[0]
+	return isFieldLoad(pt.valueAt(a, idx), r.T, r.done)
+}
+
 // doneLoads: the loads of the done field a value stands for: the load itself, or what a private helper hands
 // back (the channel read under the lock, or nil when there is nothing to close).
 func (r *dlRoles) doneLoads(a ssa.Value) []ssa.Value {
@@ -281,7 +293,7 @@ func (r *dlRoles) walk(f *ssa.Function, path upath) dlPath {
 	var pendZeroAfterDec *bool
 	ci := 0
 	res := func(v ssa.Value) ssa.Value { return path.resolve(v) }
-	for _, in := range path.Instrs {
+	for pidx, in := range path.Instrs {
 		switch x := in.(type) {
 		case *ssa.UnOp:
 			if x.Op == token.MUL && isFieldLoad(x, r.T, r.state) {
@@ -358,7 +370,7 @@ func (r *dlRoles) walk(f *ssa.Function, path upath) dlPath {
 			case r.isArm(x):
 				s.arms++
 				effects++
-			case r.isCloseDone(x):
+			case r.isCloseDone(x) || r.isCloseDoneOnPath(x, &path, pidx):
 				s.closes++
 				s.lastPos = x.Pos()
 				effects++
